@@ -271,4 +271,35 @@ func init() {
 		Outside:     []string{"that the interpreter stops a running command when its context is cancelled (mvdan DefaultExecHandler + the OS): assumed by the executor stub", "'within bounded time' is checked as absence of deadlock/livelock", "cancellation through the Scheduler (stage-condition error, Scheduler.Cancel): not yet a separate harness", "more than 3 concurrent runs"},
 		Assumptions: []string{"stub: Execute = start, yield, then the context's error if cancelled meanwhile else a symbolic outcome; a call made with an already-cancelled context starts nothing", "thread mode: sequential consistency at visible operations, data-race freedom of non-atomic fields between them", "engine intrinsics for sync.RWMutex, channels, context"},
 		Replay:      map[string]*ReplaySpec{"*": {PkgDir: "pkg/runner", File: "C12_replay_test.go", Test: "TestVerifReplayC12"}}})
+
+	c14jobs := func(tier string) []*Job {
+		var js []*Job
+		for nt := int64(1); nt <= 2; nt++ {
+			for shape := int64(0); shape < 8; shape++ {
+				js = append(js, &Job{Pkg: pkgRunner, Func: "VerifC14Hooks", Args: []int64{nt, shape}, Timeout: 30 * time.Minute, MaxSteps: 200000000})
+			}
+		}
+		pb := int64(3)
+		if tier == "thorough" {
+			pb = 5
+			for shape := int64(0); shape < 8; shape++ {
+				js = append(js, &Job{Pkg: pkgRunner, Func: "VerifC14Hooks", Args: []int64{3, shape}, Timeout: 60 * time.Minute, MaxSteps: 2000000000})
+			}
+		}
+		js = append(js, &Job{Pkg: pkgRunner, Func: "VerifC14Up", Args: []int64{pb}, Timeout: 30 * time.Minute, MaxSteps: 2000000000})
+		js = append(js, &Job{Pkg: pkgMain, Func: "VerifC14CLI", Args: []int64{0}, Timeout: 5 * time.Minute})
+		js = append(js, &Job{Pkg: pkgMain, Func: "VerifC14CLI", Args: []int64{1}, Timeout: 5 * time.Minute})
+		return js
+	}
+	register(&PropSpec{ID: "C14", Jobs: c14jobs,
+		Covers: []string{"C14.hooks-checked", "C14.up-failed", "C14.two-tasks-share-a-context", "C14.concurrent-up-checked", "C14.concurrent-up-failed", "C14.cli-checked"},
+		Bounds: map[string]interface{}{
+			"quick":    "1..2 sequential task runs sharing one context (up, down, before, after commands; a second, unused context), tasks with/without condition, before hook, after hook (8 shapes), symbolic outcome (success / any exit status) for every context and task command, symbolic allow_failure; two simultaneous runs on a fresh context in thread mode (preemption bound 3), up succeeding/failing; CLI: runTask / runPipeline with the target succeeding/failing",
+			"thorough": "3 sequential runs; preemption bound 5",
+		},
+		Outside:     []string{"more than 3 tasks / more than one used context", "sync.Once's own implementation (engine intrinsic)", "several CLI targets sharing a context (Finish after each target)", "contexts used through the scheduler (same TaskRunner.Run)"},
+		Assumptions: []string{"stub: (*DefaultExecutor).Execute records the command and returns a symbolic outcome", "CLI harness: TaskRunner.Run/Finish and Scheduler.Schedule replaced by recording stand-ins"},
+		Replay: map[string]*ReplaySpec{
+			"VerifC14CLI": {PkgDir: "cmd/taskctl", File: "C14_cli_replay_test.go", Test: "TestVerifReplayC14CLI"},
+			"*":           {PkgDir: "pkg/runner", File: "C14_replay_test.go", Test: "TestVerifReplayC14"}}})
 }
